@@ -762,6 +762,19 @@ func parentMain(spec *Spec, tier string, only []string) int {
 			fmt.Printf("(further violation signatures are not printed; replay files are written for the first 300)\n")
 		}
 	}
+	os.Remove(filepath.Join(root(), ".work", "violations-"+spec.ID+".txt"))
+	if nViol > 0 {
+		// full list for triage (not evidence): .work/violations-<ID>.txt
+		var sb strings.Builder
+		for i, s := range sigs {
+			if _, ok := open[s]; ok || i > 50000 {
+				continue
+			}
+			fmt.Fprintf(&sb, "%s\t%d\t%s\n", s, violN[s], strings.ReplaceAll(tail(viol[s].Msg, 600), "\n", "\\n"))
+		}
+		os.MkdirAll(filepath.Join(root(), ".work"), 0o755)
+		os.WriteFile(filepath.Join(root(), ".work", "violations-"+spec.ID+".txt"), []byte(sb.String()), 0o644)
+	}
 	if nViol > 40 {
 		groups := map[string]int{}
 		example := map[string]string{}
@@ -855,8 +868,12 @@ func parentMain(spec *Spec, tier string, only []string) int {
 		return 1
 	}
 	if len(engineErrs) > 0 {
-		for _, e := range engineErrs {
-			fmt.Printf("ENGINE-ERROR property=%s %s\n", spec.ID, e)
+		for i, e := range engineErrs {
+			if i >= 5 {
+				fmt.Printf("ENGINE-ERROR property=%s (%d more engine errors)\n", spec.ID, len(engineErrs)-5)
+				break
+			}
+			fmt.Printf("ENGINE-ERROR property=%s %s\n", spec.ID, tail(e, 700))
 		}
 		return 2
 	}
